@@ -90,9 +90,11 @@ func count(k string) {
 	res.Count(k)
 }
 
+var baseEnv = os.Environ() // before any ambient variation of this process
+
 func goenv() []string {
 	env := []string{}
-	for _, e := range os.Environ() {
+	for _, e := range baseEnv {
 		if strings.HasPrefix(e, "GOFLAGS=") || strings.HasPrefix(e, "GOPROXY=") || strings.HasPrefix(e, "GOSUMDB=") ||
 			strings.HasPrefix(e, "GOTOOLCHAIN=") || strings.HasPrefix(e, "GO111MODULE=") {
 			continue
@@ -272,6 +274,8 @@ func tierA(d *dg.Design, root, sub string, reps, extraGen int, stream, outFlag s
 		if err := os.MkdirAll(dir, 0o755); err != nil {
 			panic(err)
 		}
+		setAmbient(k) // repetition k runs under another time zone / locale / environment
+		defer restoreAmbient()
 		o := evalFresh(d)
 		if o.Panic != "" || !o.Accepted {
 			count("tierA_design_rejected")
@@ -288,7 +292,7 @@ func tierA(d *dg.Design, root, sub string, reps, extraGen int, stream, outFlag s
 		sGen := shaOnly(snapshot(dir))
 		if k >= reps {
 			if df := diffSnap(refGen, sGen); len(df) > 0 {
-				fail("gen-output-differs-between-runs", fmt.Sprintf("two in-process generations of one design differ (repetition 0 vs %d): %s", k, strings.Join(df, "; ")), in)
+				fail("gen-output-differs-between-runs", fmt.Sprintf("two in-process generations of one design differ (repetition 0 [ambient %s] vs %d [ambient %s: time zone %+ds, %v]): %s", ambients[0].Name, k, ambients[k%len(ambients)].Name, ambients[k%len(ambients)].ZoneS, ambients[k%len(ambients)].Env, strings.Join(df, "; ")), in)
 				break
 			}
 			continue
@@ -316,11 +320,11 @@ func tierA(d *dg.Design, root, sub string, reps, extraGen int, stream, outFlag s
 			continue
 		}
 		if df := diffSnap(refGen, sGen); len(df) > 0 {
-			fail("gen-output-differs-between-runs", fmt.Sprintf("two in-process generations of one design differ (repetition 0 vs %d): %s", k, strings.Join(df, "; ")), in)
+			fail("gen-output-differs-between-runs", fmt.Sprintf("two in-process generations of one design differ (repetition 0 [ambient %s] vs %d [ambient %s: time zone %+ds, %v]): %s", ambients[0].Name, k, ambients[k%len(ambients)].Name, ambients[k%len(ambients)].ZoneS, ambients[k%len(ambients)].Env, strings.Join(df, "; ")), in)
 			break
 		}
 		if df := diffSnap(refAll, sAll); len(df) > 0 {
-			fail("example-output-differs-between-runs", fmt.Sprintf("two in-process example generations of one design differ (repetition 0 vs %d): %s", k, strings.Join(df, "; ")), in)
+			fail("example-output-differs-between-runs", fmt.Sprintf("two in-process example generations of one design differ (repetition 0 vs %d [ambient %s]): %s", k, ambients[k%len(ambients)].Name, strings.Join(df, "; ")), in)
 			break
 		}
 	}
@@ -394,14 +398,60 @@ func buildGoa() error {
 	return nil
 }
 
-func runGoa(dir, cmdName, outFlag string) (string, error) {
+// Ambient is one setting of the inputs that are NOT the design or the command line: the
+// local time zone, locale variables, unrelated environment variables, how deep the module
+// lives in the file system. Generated bytes must not depend on any of them.
+type Ambient struct {
+	Name  string   `json:"name"`
+	Env   []string `json:"env"`
+	Nest  string   `json:"nest,omitempty"` // extra directories between the work dir and the module
+	ZoneS int      `json:"zone_offset_s"`  // in-process: time.Local = FixedZone(Name, ZoneS)
+}
+
+var ambients = []Ambient{
+	{Name: "utc", Env: []string{"TZ=UTC", "LANG=C", "LC_ALL=C"}, ZoneS: 0},
+	{Name: "kiritimati", Env: []string{"TZ=Pacific/Kiritimati", "LANG=tr_TR.UTF-8", "LC_ALL=tr_TR.UTF-8", "C09_UNRELATED=1", "USER=someone", "HOSTNAME=elsewhere"}, Nest: "deeper/nest", ZoneS: 14 * 3600},
+	{Name: "pago_pago", Env: []string{"TZ=Pacific/Pago_Pago", "LANG=ja_JP.UTF-8", "LC_ALL=", "COLUMNS=20"}, ZoneS: -11 * 3600},
+	{Name: "kathmandu", Env: []string{"TZ=Asia/Kathmandu", "LANG=de_DE.ISO-8859-1", "LC_TIME=fr_FR"}, Nest: "a", ZoneS: 5*3600 + 45*60},
+}
+
+var processLocal = time.Local
+
+// setAmbient applies ambient setting k to this process (tier A repetitions).
+func setAmbient(k int) {
+	a := ambients[k%len(ambients)]
+	if a.ZoneS == 0 {
+		time.Local = time.UTC
+	} else {
+		time.Local = time.FixedZone(a.Name, a.ZoneS)
+	}
+	for _, kv := range a.Env {
+		i := strings.IndexByte(kv, '=')
+		os.Setenv(kv[:i], kv[i+1:])
+	}
+}
+
+func restoreAmbient() { time.Local = processLocal }
+
+func runGoa(dir, cmdName, outFlag string, amb int) (string, error) {
 	args := []string{cmdName, "tb/design"}
 	if outFlag != "" {
 		args = append(args, "-o", outFlag)
 	}
 	cmd := exec.Command(goaBin, args...)
 	cmd.Dir = dir
-	cmd.Env = goenv()
+	env := []string{}
+	a := ambients[amb%len(ambients)]
+	skip := map[string]bool{}
+	for _, kv := range a.Env {
+		skip[kv[:strings.IndexByte(kv, '=')]] = true
+	}
+	for _, kv := range goenv() {
+		if !skip[kv[:strings.IndexByte(kv, '=')]] {
+			env = append(env, kv)
+		}
+	}
+	cmd.Env = append(env, a.Env...)
 	b, err := cmd.CombinedOutput()
 	return string(b), err
 }
@@ -543,7 +593,7 @@ func runHistory(dir, src string, hr *HistRun) {
 		for _, st := range expand(k, dir, cur) {
 			switch st.Kind {
 			case "gen", "example":
-				out, err := runGoa(moddir, st.Kind, hr.Out)
+				out, err := runGoa(moddir, st.Kind, hr.Out, hr.Rep)
 				if err != nil {
 					hr.Steps = append(hr.Steps, st)
 					hr.Err = fmt.Sprintf("goa %s failed: %v: %s", st.Kind, err, trunc(out, 1500))
@@ -588,7 +638,7 @@ func stepNames(hr *HistRun) []string {
 
 // oracleHistory evaluates the property directly on one executed history.
 func oracleHistory(d *dg.Design, hr *HistRun, fresh map[string]Snapshot) {
-	in := Input{Stream: "cli", Design: d, History: stepNames(hr), Detail: map[string]any{"history": hr.Hist, "process_run": hr.Rep, "output_flag": hr.Out}}
+	in := Input{Stream: "cli", Design: d, History: stepNames(hr), Detail: map[string]any{"history": hr.Hist, "process_run": hr.Rep, "output_flag": hr.Out, "ambient": ambients[hr.Rep%len(ambients)]}}
 	if hr.Err != "" {
 		sig := "goa-command-failed"
 		if hr.FailedAt > 1 {
@@ -909,7 +959,13 @@ func fixedDesigns() []*dg.Design {
 		errs6 = append(errs6, dg.ErrorDef{Name: fmt.Sprintf("e%d", 5-i), T: &t})
 		resp6 = append(resp6, dg.ErrResponse{Name: fmt.Sprintf("e%d", 5-i), R: dg.Response{Status: 400}})
 	}
-	t3, t4, t5 := dg.Ref("ErrT3"), dg.Ref("ErrT4"), dg.Ref("ErrT5")
+	// the second method has error types of its own (goa requires ErrorName when errors of one
+	// service share a user type)
+	for i := 6; i < 9; i++ {
+		n := fmt.Sprintf("ErrT%d", i)
+		errTypes = append(errTypes, &dg.UserType{Name: n, Base: dg.Obj(dg.Req(fmt.Sprintf("msg%d", i), dg.Prim("String")), dg.F("code", dg.Prim("Int")))})
+	}
+	t3, t4, t5 := dg.Ref("ErrT6"), dg.Ref("ErrT7"), dg.Ref("ErrT8")
 	errs3 := []dg.ErrorDef{{Name: "c_z", T: &t3}, {Name: "c_a", T: &t5}, {Name: "c_m", T: &t4}, {Name: "c_plain"}}
 	resp3 := []dg.ErrResponse{{Name: "c_z", R: dg.Response{Status: 409}}, {Name: "c_a", R: dg.Response{Status: 409}}, {Name: "c_m", R: dg.Response{Status: 409}}, {Name: "c_plain", R: dg.Response{Status: 409}}}
 	d3 := &dg.Design{Name: "calc", BasePath: "/v1", // API name == a service name (the canonical goa layout): example package becomes calcapi
@@ -917,6 +973,7 @@ func fixedDesigns() []*dg.Design {
 			{Name: "Obj0", Base: dg.Obj(dg.Req("id", dg.Prim("UInt64")), dg.F("when", dg.Prim("String")).With(dg.Validation{Format: "date-time"}),
 				dg.F("inner", dg.Obj(dg.F("a", dg.Prim("Boolean")), dg.F("b", dg.Prim("Bytes")))), dg.F("child", dg.Ref("Obj0")))},
 			{Name: "Obj1", Extend: "Obj0", Base: dg.Obj(dg.F("extra", dg.Prim("Int32")).Def(float64(3)))},
+			{Name: "Stamps", Base: dg.Obj(allFormats()...)},
 		}...),
 		Services: []*dg.Service{{Name: "calc", Methods: []*dg.Method{
 			{Name: "add", Payload: &dg.Attr{T: dg.Obj(dg.Req("a", dg.Prim("Int")), dg.Req("b", dg.Prim("Int")))}, Result: &dg.Attr{T: dg.Prim("Int")},
@@ -927,6 +984,9 @@ func fixedDesigns() []*dg.Design {
 				HTTP: &dg.HTTPMap{Routes: []dg.Route{{Verb: "POST", Path: "/echo"}}, Errors: resp6,
 					Responses: []dg.Response{{Status: 200, Headers: []dg.MapEntry{{Attr: "when", Wire: "X-When"}}}}}},
 			{Name: "nothing", HTTP: &dg.HTTPMap{Routes: []dg.Route{{Verb: "DELETE", Path: "/nothing"}}}},
+			{Name: "stamps", Payload: &dg.Attr{T: dg.Obj(dg.F("day", dg.Prim("String")).With(dg.Validation{Format: "date"}), dg.F("at", dg.Prim("String")).With(dg.Validation{Format: "rfc1123"}))},
+				Result: &dg.Attr{T: dg.ArrayOf(dg.A(dg.Ref("Stamps")))},
+				HTTP:   &dg.HTTPMap{Routes: []dg.Route{{Verb: "GET", Path: "/stamps"}}, Params: []dg.MapEntry{{Attr: "day"}}, Headers: []dg.MapEntry{{Attr: "at", Wire: "X-At"}}}},
 		}}, {Name: "history", Methods: []*dg.Method{
 			{Name: "list", Result: &dg.Attr{T: dg.ArrayOf(dg.A(dg.Ref("Obj0")))}, HTTP: &dg.HTTPMap{Routes: []dg.Route{{Verb: "GET", Path: "/history"}}}},
 		}}, {Name: "zlast", Methods: []*dg.Method{
@@ -945,6 +1005,17 @@ func fixedDesigns() []*dg.Design {
 	// order matters for the CLI: even positions run in the working directory (where the
 	// generators' own os.Stat shortcuts look), odd positions with -o out
 	return []*dg.Design{d3, d2, d4, d1}
+}
+
+// allFormats: one string attribute per Format keyword, several of the time-valued ones,
+// none with an explicit example: goa computes the examples (dates are where a local time
+// zone would show).
+func allFormats() []*dg.Field {
+	var fs []*dg.Field
+	for i, f := range []string{"date", "date-time", "rfc1123", "date", "uuid", "email", "hostname", "ipv4", "ipv6", "ip", "uri", "mac", "cidr", "regexp", "json", "date", "date", "date"} {
+		fs = append(fs, dg.F(fmt.Sprintf("f%d_%s", i, strings.ReplaceAll(f, "-", "_")), dg.Prim("String")).With(dg.Validation{Format: f}))
+	}
+	return fs
 }
 
 var hostileNames = []string{"goals", "goa_admin", "goa", "gen", "http", "grpc", "cli", "cmd", "tmp", "design", "example", "x", "fooBar", "foo_bar2", "Public"}
@@ -1220,6 +1291,9 @@ func main() {
 		extra := 0
 		if i < nFixed {
 			extra = fixedExtra // the feature designs put >= 2 entries into the generators' internal maps: many more orders
+			if len(d.Services) > 8 {
+				extra = 2 // the 15-service naming design is there for the paths, not for map orders; it is slow to generate
+			}
 		}
 		r := tierA(d, taRoot, fmt.Sprintf("d%d", i), repsA, extra, stream, "")
 		ta = append(ta, r)
@@ -1284,7 +1358,7 @@ func main() {
 		go func() {
 			defer wg.Done()
 			for j := range ch {
-				dir := filepath.Join(workDir, "cli", fmt.Sprintf("d%d", j.di), fmt.Sprintf("%s_p%d", j.hr.Hist, j.hr.Rep))
+				dir := filepath.Join(workDir, "cli", fmt.Sprintf("d%d", j.di), fmt.Sprintf("%s_p%d", j.hr.Hist, j.hr.Rep), ambients[j.hr.Rep%len(ambients)].Nest)
 				runHistory(dir, j.src, j.hr)
 			}
 		}()
@@ -1425,7 +1499,7 @@ func main() {
 	if err := os.WriteFile(filepath.Join(*out, "cases_fs.txt"), []byte(strings.Join(cases, "\n")+"\n"), 0o644); err != nil {
 		panic(err)
 	}
-	finish(*out, evaluations, len(distinct), fmt.Sprintf("tier A: %d fixed feature designs (metadata with several struct:field:*/struct:tag:* keys per attribute, recursive result types with views and collections, the four security kinds, two services, file server, six errors of six different types on one status code plus four on another, Extend, defaults, validations; each generated 10 (quick) / 30 (thorough, search) more times, gen only) then designgen.Random designs (every 4th loaded with metadata), each evaluated through the real DSL and generated (gen + example) %d times in-process into fresh directories; CLI: the first %d generated designs printed as design packages, histories %v (delete = some but not all example files; stray = a file in every directory below gen/ plus new directories named goa*, tmp, design, gen, cmd, .hidden), %d fresh-process runs per history on one output directory each, service/API names from a hostile-but-valid pool (goals, goa_admin, goa, gen, http, grpc, cli, cmd, tmp, design, example, x, fooBar, ...), API name == service name in the calc design; metadata probe: a design with API/service/method-level openapi:tag:*/extension/operationId metadata, two response cookies and file servers, both openapi:summary and swagger:summary with different values at API, service, method and file-server level, OpenAPI files rendered in memory 100 (600 thorough) times from fresh evaluations; evaluations = generator runs (tier A) + executed history steps (CLI) + probe renderings; distinct = distinct design descriptions per stream",
+	finish(*out, evaluations, len(distinct), fmt.Sprintf("tier A: %d fixed feature designs (metadata with several struct:field:*/struct:tag:* keys per attribute, recursive result types with views and collections, the four security kinds, two services, file server, six errors of six different types on one status code plus four on another, Extend, defaults, validations; each generated 10 (quick) / 30 (thorough, search) more times, gen only) then designgen.Random designs (every 4th loaded with metadata), each evaluated through the real DSL and generated (gen + example) %d times in-process into fresh directories, repetition k under another ambient setting (time.Local UTC / +14h / -11h / +5h45, TZ, LANG, LC_*, unrelated variables); every fresh-process run of the tool likewise (TZ=UTC / Pacific/Kiritimati / Pacific/Pago_Pago / Asia/Kathmandu, locales, module nested at another depth); CLI: the first %d generated designs printed as design packages, histories %v (delete = some but not all example files; stray = a file in every directory below gen/ plus new directories named goa*, tmp, design, gen, cmd, .hidden), %d fresh-process runs per history on one output directory each, service/API names from a hostile-but-valid pool (goals, goa_admin, goa, gen, http, grpc, cli, cmd, tmp, design, example, x, fooBar, ...), API name == service name in the calc design; metadata probe: a design with API/service/method-level openapi:tag:*/extension/operationId metadata, two response cookies and file servers, both openapi:summary and swagger:summary with different values at API, service, method and file-server level, OpenAPI files rendered in memory 100 (600 thorough) times from fresh evaluations; evaluations = generator runs (tier A) + executed history steps (CLI) + probe renderings; distinct = distinct design descriptions per stream",
 		len(fixedDesigns()), repsA, nCLI, hs, procs), nil)
 }
 
